@@ -200,7 +200,8 @@ func TestVerifTxSign(t *testing.T) {
 				mb := c19Clone(base)
 				c19Mutate(reflect.ValueOf(mb).Elem().FieldByName(m.Field), st, rng)
 				md := c19Digests(mb)
-				for d, before := range bd {
+				for _, d := range []string{"txHash", "txSignDigest"} {
+					before := bd[d]
 					changed := before != md[d]
 					res.Count(fmt.Sprintf("txmut|%s|%s|%s|%s", m.Shape.P, m.Field, st, d))
 					if c19Has(m.Required, d) && !changed {
